@@ -551,9 +551,12 @@ def scenarios(tier, seed):
             for which in ("value", "error", "cor", "asym"):
                 if which == "cor" and (kv, ke) != (0, -1):
                     continue
-                if q and ((which == "asym" and kv != 0) or (kv, ke) in ((-2, 1), (2, -3))):
-                    continue
+                if q and ((which == "asym" and kv != 0) or (kv, ke) == (-2, 1) or ((kv, ke) == (2, -3) and which != "value")):
+                    continue  # (2, -3)/value: 7 significant digits after the first rounding -- the double-rounding case
                 S.append(Scenario("compact/v1e%d/e1e%d/%s" % (kv, ke, which), sc_compact, family="compact/" + which, params=dict(kv=kv, ke=ke, which=which)))
+    if q:
+        # more than six significant digits after the first rounding: the double-rounding case of the table renderer
+        S.append(Scenario("compact/v1e4/e1e-3/value", sc_compact, family="compact/value", params=dict(kv=4, ke=-3, which="value")))
     for minimizer in ("scipy", "iminuit"):
         for fixed in (False, True):
             for asym in (False, True):
